@@ -1,4 +1,5 @@
 import PhreeqcVerif.Model.NumOps
+import PhreeqcVerif.Gen.RKTableau
 /-! Model of `Phreeqc::rk_kinetics` (src/phreeqcpp/kinetics.cpp): the embedded Runge–Kutta integration of the kinetic
 reactants of one cell over one kinetic time step `kin_time`.
 
@@ -124,93 +125,89 @@ def earlyExit (P : Params α) (F : α → List α → α → List α) (h : α) (
     (setRk1 : Bool) : Bool × Chem α :=
   let mv := clamp moles ch.mTemp
   let ch := { ch with m := finalM P mv ch.mTemp }
-  let (kk, ch) := evalAt F h ch
-  let eq := allWithin P ch.k1 kk tol
-  (eq, if setRk1 && eq then { ch with rk := 1, equalRate := eq } else { ch with equalRate := eq })
+  let r := evalAt F h ch
+  let eq := allWithin P r.2.k1 r.1 tol
+  (eq, if setRk1 && eq then { r.2 with rk := 1, equalRate := eq } else { r.2 with equalRate := eq })
+
+/-- `if (moles_reduction > 1.0) goto MOLES_TOO_LARGE;` -/
+def orReduce (one : α) (ch : Chem α) (k : Chem α → Outcome α) : Outcome α :=
+  if one < ch.mr then .reduce ch else k ch
+
+/-- `goto EQUAL_RATE_OUT` when `cond` holds -/
+def orExit (cond : Bool) (exitCh : Chem α) (k : Unit → Outcome α) : Outcome α :=
+  if cond then .exit exitCh else k ()
+
+/-- `error_max > 1`: repeat with a smaller step, else accept -/
+def gate (one e : α) (chRej : Chem α) (chAcc : Unit → Chem α) : Outcome α :=
+  if one < e then .rejected e chRej else .accepted e (chAcc ())
+
+/-- add the reaction `moles` (cut to the available amounts), evaluate the rates at node `ci`, update moles_reduction -/
+def evalStage (P : Params α) (F : α → List α → α → List α) (t0 h hSum ci : α) (moles : List α) (ch : Chem α) :
+    List α × Chem α :=
+  let ch := { ch with m := stageM (clamp moles ch.mTemp) ch.mTemp, tCur := t0 + hSum + ci * h }
+  let r := evalAt F h ch
+  (r.1, { r.2 with mr := updReduction P r.2.molesMax r.2.mr r.1 })
+
+/-- the accepted result: 5th-order weights, amounts floored, rates re-evaluated for the equal-rate test -/
+def acceptStep (P : Params α) (F : α → List α → α → List α) (tol : List α) (h : α) (n : Nat) (ks : List (List α))
+    (ch : Chem α) : Chem α :=
+  let res := lincomb P.zero n P.b ks
+  let ch := { ch with m := finalM P (clamp res ch.mTemp) ch.mTemp }
+  let r := evalAt F h ch
+  let eq := r.2.equalRate && allWithin P r.2.k1 r.1 tol
+  let ch := { r.2 with equalRate := eq }
+  if eq && ch.rk < 6 then { ch with rk := 1 } else ch
 
 /-- stages k4, k5, k6, the error test and the accepted result (no early exit is possible here) -/
 def stages456 (P : Params α) (F : α → List α → α → List α) (t0 : α) (tol : List α) (h hSum : α) (n : Nat)
-    (k2 k3 : List α) (ch : Chem α) : Outcome α :=
-  -- k4
-  let ch := { ch with tCur := t0 + hSum + nth P.c 3 P.zero * h }
-  let (k4, ch) := evalAt F h ch
-  let ch := { ch with mr := updReduction P ch.molesMax ch.mr k4 }
-  let moles5 := lincomb P.zero n (row P.A 4) [ch.k1, k2, k3, k4]
-  if P.one < ch.mr then .reduce ch else
-  let ch := { ch with m := stageM (clamp moles5 ch.mTemp) ch.mTemp }
-  -- k5
-  let ch := { ch with tCur := t0 + hSum + nth P.c 4 P.zero * h }
-  let (k5, ch) := evalAt F h ch
-  let ch := { ch with mr := updReduction P ch.molesMax ch.mr k5 }
-  let moles6 := lincomb P.zero n (row P.A 5) [ch.k1, k2, k3, k4, k5]
-  if P.one < ch.mr then .reduce ch else
-  let ch := { ch with m := stageM (clamp moles6 ch.mTemp) ch.mTemp }
-  -- k6
-  let ch := { ch with tCur := t0 + hSum + nth P.c 5 P.zero * h }
-  let (k6, ch) := evalAt F h ch
-  let ks := [ch.k1, k2, k3, k4, k5, k6]
+    (k2 k3 : List α) (moles4 : List α) (ch : Chem α) : Outcome α :=
+  let r4 := evalStage P F t0 h hSum (nth P.c 3 P.zero) moles4 ch
+  orReduce P.one r4.2 fun ch =>
+  let r5 := evalStage P F t0 h hSum (nth P.c 4 P.zero) (lincomb P.zero n (row P.A 4) [ch.k1, k2, k3, r4.1]) ch
+  orReduce P.one r5.2 fun ch =>
+  -- k6: no moles_reduction test after it
+  let ch6 := { ch with m := stageM (clamp (lincomb P.zero n (row P.A 5) [ch.k1, k2, k3, r4.1, r5.1]) ch.mTemp) ch.mTemp,
+                       tCur := t0 + hSum + nth P.c 5 P.zero * h }
+  let r6 := evalAt F h ch6
+  let ks := [r6.2.k1, k2, k3, r4.1, r5.1, r6.1]
   let e := errorMax P n ks tol
-  if P.one < e then .rejected e ch else
-  let res := lincomb P.zero n P.b ks
-  let ch := { ch with m := finalM P (clamp res ch.mTemp) ch.mTemp }
-  let (kk, ch) := evalAt F h ch
-  let eq := ch.equalRate && allWithin P ch.k1 kk tol
-  let ch := { ch with equalRate := eq }
-  let ch := if eq && ch.rk < 6 then { ch with rk := 1 } else ch
-  .accepted e ch
+  gate P.one e r6.2 fun _ => acceptStep P F tol h n ks r6.2
+
+/-- k1: re-used and rescaled after a bad step, evaluated otherwise -/
+def k1Stage (P : Params α) (F : α → List α → α → List α) (t0 h hOld hSum : α) (ch : Chem α)
+    (k : Chem α → Outcome α) : Outcome α :=
+  if ch.lBad then
+    k { ch with k1 := ch.k1.map (fun x => x * (h / hOld)), m := ch.mTemp, lBad := false }
+  else
+    let ch := { ch with mTemp := ch.m, tCur := t0 + hSum }
+    let r := evalAt F h ch
+    orReduce P.one { r.2 with mr := updReduction P r.2.molesMax r.2.mr r.1, k1 := r.1 } k
+
+/-- `-runge_kutta 1` with equal rates: Euler step, exit when the rate at the end equals the rate at the start -/
+def rk1Stage (P : Params α) (F : α → List α → α → List α) (tol : List α) (h : α) (n : Nat) (ch : Chem α)
+    (k : Chem α → Outcome α) : Outcome α :=
+  if ch.rk == 1 && ch.equalRate then
+    if ch.k1.all (fun x => !(P.minTotal < absv P.zero x)) then .exit ch      -- zero_rate
+    else
+      let r := earlyExit P F h tol (lincomb P.zero n P.e1 [ch.k1]) ch false
+      orExit r.1 r.2 fun _ => k { r.2 with rk := 3 }
+  else k ch
 
 /-- one pass through the body of `while (h_sum < kin_time)` after the MOLES_TOO_LARGE label -/
 def pass (P : Params α) (F : α → List α → α → List α) (t0 : α) (tol : List α) (h hOld hSum : α) (ch : Chem α) : Outcome α :=
   let n := tol.length
-  -- k1
-  let r1 : Sum (Chem α) (Chem α) :=          -- inl: goto MOLES_TOO_LARGE
-    if ch.lBad then
-      .inr { ch with k1 := ch.k1.map (fun x => x * (h / hOld)), m := ch.mTemp, lBad := false }
-    else
-      let ch := { ch with mTemp := ch.m, tCur := t0 + hSum }
-      let (kk, ch) := evalAt F h ch
-      let ch := { ch with mr := updReduction P ch.molesMax ch.mr kk, k1 := kk }
-      if P.one < ch.mr then .inl ch else .inr ch
-  match r1 with
-  | .inl ch => .reduce ch
-  | .inr ch =>
+  k1Stage P F t0 h hOld hSum ch fun ch =>
+  rk1Stage P F tol h n ch fun ch =>
   let a21 := nth (row P.A 1) 0 P.zero
-  -- -runge_kutta 1 with equal rates
-  let r2 : Sum (Chem α) (Chem α) :=          -- inl: goto EQUAL_RATE_OUT
-    if ch.rk == 1 && ch.equalRate then
-      if ch.k1.all (fun x => !(P.minTotal < absv P.zero x)) then .inl ch      -- zero_rate
-      else
-        let r := earlyExit P F h tol (lincomb P.zero n P.e1 [ch.k1]) ch false
-        if r.1 then .inl r.2 else .inr { r.2 with rk := 3 }
-    else .inr ch
-  match r2 with
-  | .inl ch => .exit ch
-  | .inr ch =>
-  let moles2 := ch.k1.map (fun x => x * a21)
-  let ch := { ch with m := stageM (clamp moles2 ch.mTemp) ch.mTemp }
-  -- k2
-  let ch := { ch with tCur := t0 + hSum + nth P.c 1 P.zero * h }
-  let (k2, ch) := evalAt F h ch
-  let ch := { ch with mr := updReduction P ch.molesMax ch.mr k2 }
-  let moles3 := lincomb P.zero n (row P.A 2) [ch.k1, k2]
-  let ch := { ch with equalRate := ch.equalRate && allWithin P ch.k1 k2 tol }
-  if P.one < ch.mr then .reduce ch else
-  if ch.rk == 2 && ch.equalRate then
-    .exit (earlyExit P F h tol (lincomb P.zero n P.e2 [ch.k1, k2]) ch true).2
-  else
-  let ch := { ch with m := stageM (clamp moles3 ch.mTemp) ch.mTemp }
-  -- k3
-  let ch := { ch with tCur := t0 + hSum + nth P.c 2 P.zero * h }
-  let (k3, ch) := evalAt F h ch
-  let ch := { ch with mr := updReduction P ch.molesMax ch.mr k3 }
-  let moles4 := lincomb P.zero n (row P.A 3) [ch.k1, k2, k3]
-  let ch := { ch with equalRate := ch.equalRate && allWithin P ch.k1 k3 tol }
-  if P.one < ch.mr then .reduce ch else
-  if ch.rk == 3 && ch.equalRate then
-    .exit (earlyExit P F h tol (lincomb P.zero n P.e3 [ch.k1, k2, k3]) ch true).2
-  else
-  let ch := { ch with m := stageM (clamp moles4 ch.mTemp) ch.mTemp }
-  stages456 P F t0 tol h hSum n k2 k3 ch
+  let r2 := evalStage P F t0 h hSum (nth P.c 1 P.zero) (ch.k1.map (fun x => x * a21)) ch
+  let ch2 := { r2.2 with equalRate := r2.2.equalRate && allWithin P r2.2.k1 r2.1 tol }
+  orReduce P.one ch2 fun ch =>
+  orExit (ch.rk == 2 && ch.equalRate) (earlyExit P F h tol (lincomb P.zero n P.e2 [ch.k1, r2.1]) ch true).2 fun _ =>
+  let r3 := evalStage P F t0 h hSum (nth P.c 2 P.zero) (lincomb P.zero n (row P.A 2) [ch.k1, r2.1]) ch
+  let ch3 := { r3.2 with equalRate := r3.2.equalRate && allWithin P r3.2.k1 r3.1 tol }
+  orReduce P.one ch3 fun ch =>
+  orExit (ch.rk == 3 && ch.equalRate) (earlyExit P F h tol (lincomb P.zero n P.e3 [ch.k1, r2.1, r3.1]) ch true).2 fun _ =>
+  stages456 P F t0 tol h hSum n r2.1 r3.1 (lincomb P.zero n (row P.A 3) [ch.k1, r2.1, r3.1]) ch
 
 /-- the label MOLES_TOO_LARGE: shrink the step when a stage asked for more than `moles_max` -/
 def applyReduction (P : Params α) (ct : Ctrl α) (ch : Chem α) : Ctrl α × Chem α :=
@@ -343,5 +340,21 @@ def linStep (A : List (List Rat)) (b : List Rat) (z : Rat) : Rat := 1 + dotL b (
 
 /-- stage values of one step for a rate that depends on time only, `k_i = h p(t0 + c_i h)` -/
 def quadStep (b c : List Rat) (p : Rat → Rat) (t0 h : Rat) : Rat := dotL b (c.map fun ci => h * p (t0 + ci * h))
+
+end PhreeqcVerif.RK
+
+namespace PhreeqcVerif.RK
+open PhreeqcVerif
+
+/-- the integrator data regenerated from the source, as numbers of type `α` (`lit` converts a source literal).
+The error weights are formed as the source forms them: `dc_i = c_i - <literal>` (a difference of two converted literals). -/
+def paramsOf {α : Type} [Sub α] (lit : Rat → α) (minTotal : α) : Params α :=
+  { A := Gen.RKTableau.A.map (·.map lit), c := Gen.RKTableau.c.map lit, b := Gen.RKTableau.b.map lit,
+    d := (Gen.RKTableau.dMin.zip Gen.RKTableau.dSub).map (fun p => lit p.1 - lit p.2),
+    e1 := Gen.RKTableau.e1.map lit, e2 := Gen.RKTableau.e2.map lit, e3 := Gen.RKTableau.e3.map lit,
+    safety := lit Gen.RKTableau.safety, molesMax := lit Gen.RKTableau.molesMax, shrinkExp := lit Gen.RKTableau.shrinkExp,
+    growExp := lit Gen.RKTableau.growExp, growThreshold := lit Gen.RKTableau.growThreshold,
+    growFactor := lit Gen.RKTableau.growFactor, tinyM := lit Gen.RKTableau.tinyM, minTotal := minTotal,
+    zero := lit 0, one := lit 1 }
 
 end PhreeqcVerif.RK
